@@ -155,6 +155,30 @@ class C15(Prop):
                     if got != val: why = 'the item does not hold exactly the value the bytes denote (bits %d, expected %d)' % (got, val)
                     elif 'ser==' not in o: why = 'serializing the decoded item does not reproduce the original bytes'
             if why: fails.append({'input': l, 'expected': 'item %s(%s) and identical bytes back (NaN: canonical)' % (k, 'NaN' if nan else val), 'observed': o[:200], 'why': why})
+        # the getters of the item API: the width-specific getter returns the stored bits, cbor_float_get_float the exactly converted double
+        gl = []
+        for h in halves[:: 1 if tier == 'thorough' else 7]:
+            v = half_f32(h)
+            if v is not None: gl.append(('h', v)); gl.append(('h!', v))
+        for b in Ss[:: 1 if tier == 'thorough' else 3]:
+            if not gen.is_nan32(b): gl.append(('s', b)); gl.append(('s!', b))
+        for b in Ds[:: 1 if tier == 'thorough' else 3]:
+            if not is_nan64(b): gl.append(('d', b)); gl.append(('d!', b))
+        glines = ['FLTGET %s(%d)' % (k, b) for k, b in gl]
+        go_, rc, err = ctx.run_c(glines)
+        if rc != 0:
+            i, l, e = core.first_crash_line(ctx.harness, glines)
+            return fails + [{'input': l, 'expected': 'values', 'observed': 'implementation aborted (UBSan/ASan)', 'why': e[-600:]}]
+        for (k, b), l, o in zip(gl, glines, go_):
+            ctx.count(l, o); ctx.bump('getter_' + k[0])
+            if k[0] == 'd': expw, expd = 64, b
+            else:
+                expw = 16 if k[0] == 'h' else 32
+                expd = struct.unpack('>Q', struct.pack('>d', struct.unpack('>f', struct.pack('>I', b))[0]))[0]
+            exp = '%d %d %d' % (expw, b, expd)
+            if o != exp:
+                fails.append({'input': l, 'expected': exp + '  (width, stored bits, bits of the exactly converted double)', 'observed': o,
+                              'why': 'a float getter does not return the value the item holds (width-specific getter / cbor_float_get_float)'})
         # blocks of 65536 consecutive singles: C vs generated model digests (also runs cbor_encode_half on each under UBSan)
         step = 1 if tier == 'thorough' else 61
         his = sorted(set(range(0, 65536, step)) | {0, 0x0080, 0x3300, 0x3380, 0x3880, 0x477f, 0x4780, 0x7f80, 0x7fc0, 0x8000, 0xb300, 0xff80, 0xffff})
@@ -173,7 +197,7 @@ class C15(Prop):
 
     def replay(self, ctx, rp):
         l = rp['failure']['input']
-        if l.startswith('LOAD '): return [f for f in self.oracle('quick', ctx) if f['input'] == l]
+        if l.startswith(('LOAD ', 'FLTGET ')): return [f for f in self.oracle('quick', ctx) if f['input'] == l]
         o, rc, _ = ctx.run_c([l])
         if rc != 0: return [dict(rp['failure'], observed='implementation aborted')]
         return [dict(rp['failure'], observed=o[0])] if o[0] != rp['failure'].get('expected') and not o[0].startswith(rp['failure'].get('expected', '\0')) else []
